@@ -350,3 +350,25 @@
 ;@ghost hopHostE (Seq String)
 ;@ghost hopPortE (Seq Int)
 ;@ghost hopTransportE (Seq String)
+
+;@chunk dialogid sipBase sipBaseU dialogIdOf
+; a SIP URI without parameters and headers: scheme ":" [user [":" password] "@"] host [":" port]
+(declare-fun sipBaseU ((Array Int String) (Array Int String) (Array Int String) (Array Int String) (Array Int Int) Int) String)
+(define-fun sipBase ((H_SIPURI_Scheme (Array Int String)) (H_SIPURI_User (Array Int String)) (H_SIPURI_Password (Array Int String)) (H_SIPURI_Host (Array Int String)) (H_SIPURI_port (Array Int Int)) (u Int)) String
+  (sipBaseU H_SIPURI_Scheme H_SIPURI_User H_SIPURI_Password H_SIPURI_Host H_SIPURI_port u))
+(assert (forall ((H_SIPURI_Scheme (Array Int String)) (H_SIPURI_User (Array Int String)) (H_SIPURI_Password (Array Int String)) (H_SIPURI_Host (Array Int String)) (H_SIPURI_port (Array Int Int)) (u Int))
+  (! (= (sipBaseU H_SIPURI_Scheme H_SIPURI_User H_SIPURI_Password H_SIPURI_Host H_SIPURI_port u)
+  (str.++ (select H_SIPURI_Scheme u) ":"
+          (ite (> (str.len (select H_SIPURI_User u)) 0)
+               (ite (> (str.len (select H_SIPURI_Password u)) 0)
+                    (str.++ (select H_SIPURI_User u) ":" (select H_SIPURI_Password u) "@")
+                    (str.++ (select H_SIPURI_User u) "@"))
+               "")
+          (select H_SIPURI_Host u)
+          (ite (not (= (select H_SIPURI_port u) 0)) (str.++ ":" (itoa (select H_SIPURI_port u))) "")))
+  :pattern ((sipBaseU H_SIPURI_Scheme H_SIPURI_User H_SIPURI_Password H_SIPURI_Host H_SIPURI_port u)))))
+; the dialog identifier: Call-ID and the two (tag "-" address) halves, ordered by address and then by tag
+(define-fun dialogIdOf ((c String) (ft String) (fa String) (tt String) (ta String)) String
+  (ite (or (str.< fa ta) (and (= fa ta) (str.< ft tt)))
+       (str.++ c "-" ft "-" fa "-" tt "-" ta)
+       (str.++ c "-" tt "-" ta "-" ft "-" fa)))
